@@ -158,11 +158,11 @@ DictEntity(s, e) == [name |-> e.name, abstract |-> e.abstract, supers |-> e.supe
                      derived |-> [i \in 1..Len(e.derive) |-> [name |-> e.derive[i].name, ty |-> e.derive[i].ty]],
                      inverse |-> [i \in 1..Len(e.inverse) |-> [name |-> e.inverse[i].name, ent |-> e.inverse[i].ent,
                                                                attr |-> e.inverse[i].attr, setof |-> e.inverse[i].setof]]]
-(* known deviations of the generator (never part of the property): defined types that get no dictionary entry *)
+(* known deviation of the generator (never part of the property): a defined type that gets no dictionary entry  *)
+(* (renamed enumerations had none either until fix 563944a5)                                                     *)
 TypeByName(s, n) == s.types[CHOOSE i \in 1..Len(s.types) : s.types[i].name = n]
 RECURSIVE RootKind(_, _)
 RootKind(s, t) == IF t.k = "rename" THEN RootKind(s, TypeByName(s, t.base.base)) ELSE t.k
-Dev_RenamedEnumNotRegistered(s, t) == t.k = "rename" /\ RootKind(s, t) = "enum"
 Dev_NestedAggrNotRegistered(s, t) == t.k = "aggr" /\ t.name = "nest"      \* the family's only named aggregate of aggregates
 Dictionary(s) == [entities |-> [i \in 1..Len(s.ents) |-> DictEntity(s, s.ents[i])], types |-> s.types]
 
